@@ -235,3 +235,77 @@ def test_maxtasksperchild_recycles_and_forks_from_current_parent_state():
             mp.Pool(2, maxtasksperchild=0)
         finally:
             sched.shutdown()
+
+
+def _lazy_run(seed, lazy, n=8, use="imap_unordered"):
+    ch = Choices(seed=seed)
+    tr = Trace(capture=True)
+    st = Stats()
+    cfg = dict(preempt=(1, 1), sticky=1, weights=[1, 4, 16], progress=True, parent_preempt=None, step_cap=100000, lazy_feed=lazy)
+    sched = Scheduler(ch, tr, st, cfg, {simhelpers.__file__}, [simhelpers], set())
+    mp = SimMP(sched, 4)
+    state = {"v": 0}
+
+    def gen():
+        for j in range(n):
+            yield (j, state["v"])  # reads the parent's state when the task handler pulls the item
+
+    got = []
+    try:
+        with mp.Pool(processes=3) as pool:
+            if use == "imap_unordered":
+                for r in pool.imap_unordered(simhelpers.task_echo, gen()):
+                    got.append(r)
+                    state["v"] += 1
+            elif use == "imap":
+                for r in pool.imap(simhelpers.task_echo, gen(), chunksize=3):
+                    got.append(r)
+                    state["v"] += 1
+            else:
+                got = pool.map(simhelpers.task_echo, gen())
+    finally:
+        sched.shutdown()
+    assert not alive(sched)
+    return got, st
+
+
+def test_lazy_task_feeding():
+    late = 0
+    for seed in range(40):
+        got, st = _lazy_run(seed, lazy=True)
+        assert sorted(j for j, _ in got) == list(range(8))  # nothing lost, nothing duplicated, iteration ends
+        late += any(v > 0 for _, v in got)
+    assert late >= 3  # some schedules pull items after the parent has moved on
+    for seed in range(10):
+        got, st = _lazy_run(seed, lazy=False)
+        assert sorted(j for j, _ in got) == list(range(8)) and all(v == 0 for _, v in got)
+        assert not st.faults.get("lazy_task_feed")
+    for seed in range(20):
+        got, st = _lazy_run(seed, lazy=True, use="imap")
+        assert [j for j, _ in got] == list(range(8))  # imap keeps submission order
+        got, st = _lazy_run(seed, lazy=True, use="map")
+        assert got == [(j, 0) for j in range(8)]  # map takes list(iterable) at call time
+
+
+def test_lazy_feeding_iterable_that_raises():
+    for seed in range(10):
+        ch = Choices(seed=seed)
+        st = Stats()
+        cfg = dict(preempt=(1, 1), sticky=1, weights=[4], progress=True, parent_preempt=None, step_cap=100000, lazy_feed=True)
+        sched = Scheduler(ch, Trace(capture=True), st, cfg, {simhelpers.__file__}, [simhelpers], set())
+        mp = SimMP(sched, 2)
+
+        def gen():
+            yield 1
+            yield 2
+            raise KeyError("bad item")
+
+        got = []
+        try:
+            with mp.Pool(2) as pool:
+                with pytest.raises(KeyError):
+                    for r in pool.imap(simhelpers.task_echo, gen()):
+                        got.append(r)
+        finally:
+            sched.shutdown()
+        assert got == [1, 2]
